@@ -35,7 +35,7 @@ def main(tier, args):
     vf.finish(PID, tier, res, t0,
               rule="(1) next-instant function, exhaustive input sweeps on the real alarm classes: weekly = every second of 3 base weeks (epoch 0, straddling 2^31, "
                    "last week below 2^32-(1 week+14 h)) x all 128 weekday masks x seconds-of-day {0,86399} (+ %s) through a probe subclass, and +-2 s around every UTC/local day "
-                   "boundary and trigger x tz -12h..+14h step 15 min x seconds-of-day {0,1,43200,86398,86399} x %s masks through the real activeTimer() under a virtual wall clock; "
+                   "boundary and trigger x tz -12h..+14h step 15 min x %s through the real activeTimer() under a virtual wall clock; "
                    "one-shot = every second of 2 days x 9 boundary seconds-of-day + every second-of-day x boundary instants + all tz; workday = all calendars with <=3 special days in a "
                    "10-day window x 4 (thorough 6) week masks + single matching day 1..400 days ahead; cron = shapes 's m h * * *', 's m h * * d', 's m h D M *' with extreme field values x dense "
                    "boundary instants over 7 windows and per-day probes over 5+5 years; oracle = independent day-scan reference (own civil calendar), result strictly after now, armed "
@@ -43,10 +43,13 @@ def main(tier, args):
                    "depth<=%d on %d weekly/one-shot/cron/workday configurations (targets 40/50/60/100/400 days ahead included) under virtual wall + monotonic clocks; state = full alarm + "
                    "timer + loop-timer record + model; oracle = one callback per matching instant, never two, none while disabled, one-shot once, armed delay (TimerEvent interval and "
                    "loop timer record) >= wall distance at arming, armed target = earliest matching instant"
-                   % ("{1,23296,43200,86398} and 12 more values on a stride-7 grid" if quick else "every 10-minute value, every hour +-1 and 16 boundary values at every second", "40 (all with <=2 or >=6 days set + 3 patterns)" if quick else "all 128", depth, len(FIRE)),
+                   % ("{1,23296,43200,86398} and 12 more values on a stride-7 grid" if quick else "every 10-minute value, every hour +-1 and 16 boundary values at every second", "seconds-of-day {0,1,43200,86398,86399} x 40 masks (all with <=2 or >=6 days set + 3 patterns)" if quick else "16 boundary seconds-of-day x all 128 masks", depth, len(FIRE)),
               assumptions=["instants within one week + 14 h of 2^32 are excluded; so are inputs whose local time now+tz is negative",
                            "a 'not found' answer is accepted beyond the implementation's search horizon (weekly 8 days, workday 367 days, cron 4 years)",
                            "clock advances stop at each matching instant (+<=1 s) and are followed by a loop pass: no catch-up is demanded",
-                           "after a wall-clock step and until the next enable()/refresh() only never-twice/disabled-never/one-shot-once and the armed-delay rule are checked",
+                           "after a wall-clock step and until the next enable()/refresh() only never-twice/disabled-never/one-shot-once and the armed-delay rule are checked; "
+                           "a callback of the un-refreshed timer that comes before the wall clock reaches the instant is not counted as that instant's callback; "
+                           "after a backward step both re-firing and not re-firing the re-exposed instants are accepted",
+                           "callbacks are attributed to the nearest matching instant (instants >= 30 min apart, skew <= 10 ms, wall steps <= 2 h in total)",
                            "the time zone is always set explicitly (setTimezone); the system-time-zone path (localtime_r) is not exercised",
                            "gettimeofday/clock_gettime/time are the only clock sources of alarm.cpp and common_loop_timer.cpp (checked by reading them)"])
